@@ -13,7 +13,7 @@ from mzverif.core import Sub, call, require
 
 ID = "C17"
 LEVEL = "exploration"
-TECHNIQUE = "independent renderer + explicit-loop post-processing compared pixel for pixel: Hypothesis over hand-built and generated mazes (square, oblong, int8..int64 / Fortran-ordered arrays, 33..100 cells per side), same-flags-other-shape twins, repeated rasterization of one object, datasets and batches (up to 1025 indices, compared with model-verified images), config-driven routes (from_config_augmented, make_numpy_collection)"
+TECHNIQUE = "independent renderer + explicit-loop post-processing compared pixel for pixel: Hypothesis over hand-built and generated mazes (square, oblong, int8..int64 / Fortran-ordered arrays, 33..100 cells per side), same-flags-other-shape twins, repeated rasterization of one object, datasets and batches (up to 1025 indices, compared with model-verified images), config-driven routes (from_config_augmented, make_numpy_collection); batches kept by the caller while further batches are fetched"
 RULE = (
     "case = (solved maze given as bits+solution or as a seeded generator call, remove_isolated_cells, extend_pixels, endpoints_as_open"
     "[, dataset items + index list]). Non-trivial = solution of >= 3 cells and (an isolated non-wall pixel exists in input or target "
